@@ -203,6 +203,8 @@ def run_waits(ctx, desc):
         case = {"workload": "waits", "kind": "no-filter", "code": code}
         if status in ("hung", "never-waited"):
             ctx.inconc(f"emcy.wait: {status}", case)
+        elif status == "not-woken":
+            ctx.violation("waiter-not-woken", "the EMCY frame was delivered but the caller waiting in wait() was not woken", case)
         elif status != "returned" or val is None or val.code != code or val is not node.emcy.log[-1]:
             ctx.violation("emcy-wait-nofilter", f"wait() ended {status} with {val!r} after frame {code:#x}", case)
         # 2. filter: a non-matching frame first, then the matching one
